@@ -110,6 +110,7 @@ fn project_events(events: &[Ev], run: usize) -> Vec<Ev> {
             | Ev::Interrupt { run, .. }
             | Ev::SenderDrop { run }
             | Ev::Abort { run }
+            | Ev::CarriedRefDrop { run, .. }
             | Ev::Return { run, .. }
             | Ev::Panic { run, .. }
             | Ev::Dead { run, .. }
@@ -726,7 +727,8 @@ impl Edit {
                 ch
             }
             Edit::NoMay => {
-                let ch = rs.may_abort || rs.may_forget || rs.may_drop_sender || rs.unwind_drop_mask != 0;
+                let ch = rs.may_abort || rs.may_forget || rs.may_drop_sender || rs.unwind_drop_mask != 0 || rs.leave_refs;
+                rs.leave_refs = false;
                 rs.unwind_drop_mask = 0;
                 rs.may_abort = false;
                 rs.may_forget = false;
